@@ -24,8 +24,8 @@ Open Scope list_scope.
 (* ------------------------------------------------------------------ exponents *)
 Definition qc (z : Z) : Qc := Q2Qc (inject_Z z).
 Definition qcf (n : Z) (d : positive) : Qc := Q2Qc (Qmake n d).
-Definition Qc0 : Qc := qc 0.
-Definition Qc1 : Qc := qc 1.
+Definition Qc0 : Qc := 0%Qc.
+Definition Qc1 : Qc := 1%Qc.
 Definition qc_eqb (a b : Qc) : bool := Qc_eq_bool a b.
 Definition qc_is_int (a : Qc) : bool := Pos.eqb (Qden (this a)) 1.
 
@@ -225,6 +225,7 @@ Inductive err :=
 | EConstraintSolverError | ESubstitutionError | EMissingDimBound
 | EExponentiationNeedsTypeAnnotation | EDerivedUnitDefinitionMustNotBeGeneric
 | ENoDimensionlessBaseUnit
+| EPanic              (* the code panics (division by a zero exponent in try_satisfy) *)
 | EOutOfFuel          (* model only: the solve loop ran out of fuel *)
 | EUnsupported.       (* model only: construct outside the modelled fragment *)
 
@@ -333,67 +334,74 @@ Definition cs_add (cs : list constr) (c : constr) : list constr * trivial :=
   let r := try_trivial_resolution c in
   (match r with Satisfied => cs | _ => cs ++ [c] end, r).
 
-(* Constraint::try_satisfy: Some (substitution, new constraints) *)
-Definition try_satisfy (c : constr) : option (subst * list constr) :=
+(* Constraint::try_satisfy: None = cannot (yet) be solved; Some (substitution, new constraints).
+   `- j / k` on Ratio<i128> panics for k = 0: that is the explicit outcome SatPanic. *)
+Inductive satres := NotYet | Sat (s : subst) (news : list constr) | SatPanic.
+
+Definition try_satisfy (c : constr) : satres :=
   match c with
   | CEq t1 t2 =>
-      if ty_eqb t1 t2 then Some ([], []) else
+      if ty_eqb t1 t2 then Sat [] [] else
       let arm2 :=
         match t1 with
-        | TVar x => if negb (ty_contains t2 x false) then Some ([(x, t2)], []) else None
+        | TVar x => if negb (ty_contains t2 x false) then Some (x, t2) else None
         | _ => None
         end in
-      match arm2 with Some r => Some r | None =>
+      match arm2 with Some (x, t) => Sat [(x, t)] [] | None =>
       let arm2' :=
         match t2 with
-        | TVar x => if negb (ty_contains t1 x false) then Some ([(x, t1)], []) else None
+        | TVar x => if negb (ty_contains t1 x false) then Some (x, t1) else None
         | _ => None
         end in
-      match arm2' with Some r => Some r | None =>
+      match arm2' with Some (x, t) => Sat [(x, t)] [] | None =>
       let arm3 :=
         match t1 with
         | TDim dx => match single dx with
-                     | Some v => if negb (ty_contains t2 v false) then Some ([(v, t2)], []) else None
+                     | Some v => if negb (ty_contains t2 v false) then Some (v, t2) else None
                      | None => None
                      end
         | _ => None
         end in
-      match arm3 with Some r => Some r | None =>
+      match arm3 with Some (x, t) => Sat [(x, t)] [] | None =>
       let arm4 :=
         match t2 with
         | TDim dx => match single dx with
-                     | Some v => if negb (ty_contains t1 v false) then Some ([(v, t1)], []) else None
+                     | Some v => if negb (ty_contains t1 v false) then Some (v, t1) else None
                      | None => None
                      end
         | _ => None
         end in
-      match arm4 with Some r => Some r | None =>
+      match arm4 with Some (x, t) => Sat [(x, t)] [] | None =>
       match t1, t2 with
-      | TList s1, TList s2 => Some ([], [CEq s1 s2])
-      | TVar tv, TDim d => Some ([], [CEq (TDim (from_var tv)) (TDim d)])
-      | TDim d, TVar tv => Some ([], [CEq (TDim (from_var tv)) (TDim d)])
-      | TDim d1, TDim d2 => Some ([], [CScalar (ddivide d1 d2)])
-      | _, _ => None
+      | TList s1, TList s2 => Sat [] [CEq s1 s2]
+      | TVar tv, TDim d => Sat [] [CEq (TDim (from_var tv)) (TDim d)]
+      | TDim d, TVar tv => Sat [] [CEq (TDim (from_var tv)) (TDim d)]
+      | TDim d1, TDim d2 => Sat [] [CScalar (ddivide d1 d2)]
+      | _, _ => NotYet
       end end end end end
-  | CIsD (TDim inner) => Some ([], map (fun tv => CIsD (TVar tv)) (dvars true inner))
-  | CIsD _ => None
+  | CIsD (TDim inner) => Sat [] (map (fun tv => CIsD (TVar tv)) (dvars true inner))
+  | CIsD _ => NotYet
   | CScalar d =>
-      if dtype_eqb d dscalar then Some ([], []) else
+      if dtype_eqb d dscalar then Sat [] [] else
       match d with
       | (FVar tv, k) :: rest =>
-          Some ([(tv, TDim (canon (map (fun x => (fst x, (- snd x / k)%Qc)) rest)))], [])
-      | _ => None
+          if qc_eqb k Qc0 then SatPanic else
+          Sat [(tv, TDim (canon (map (fun x => (fst x, (- snd x / k)%Qc)) rest)))] []
+      | _ => NotYet
       end
   end.
 
 (* first constraint (in order) that can be satisfied, with the set without it *)
-Fixpoint first_satisfiable (pre cs : list constr) : option (subst * list constr * list constr) :=
+Inductive firstres := FNone | FSome (s : subst) (news others : list constr) | FPanic.
+
+Fixpoint first_satisfiable (pre cs : list constr) : firstres :=
   match cs with
-  | [] => None
+  | [] => FNone
   | c :: r =>
       match try_satisfy c with
-      | Some (s, news) => Some (s, news, rev_append pre r)
-      | None => first_satisfiable (c :: pre) r
+      | Sat s news => FSome s news (rev_append pre r)
+      | SatPanic => FPanic
+      | NotYet => first_satisfiable (c :: pre) r
       end
   end.
 
@@ -404,8 +412,9 @@ Fixpoint solve_loop (fuel : nat) (cs : list constr) : res (subst * list constr) 
   | O => Err EOutOfFuel
   | S f =>
       match first_satisfiable [] cs with
-      | None => Ok ([], cs)
-      | Some (s, news, others) =>
+      | FNone => Ok ([], cs)
+      | FPanic => Err EPanic
+      | FSome s news others =>
           match mapM (capply s) (others ++ news) with
           | Err _ => Err ESubstitutionError
           | Ok cs' =>
